@@ -1,5 +1,6 @@
 /- C05 property theorems (see DESIGN §4 C05).  Helper lemmas are in Lemmas.lean. -/
 import TetlProofs.C05.Lemmas
+import TetlProofs.C05.Inventory
 import TetlProofs.C05.SvInsert
 import TetlProofs.C05.SvErase
 import TetlProofs.C05.StrBits
